@@ -30,7 +30,8 @@ class Contract:
         for exc, spec in dict(kw.pop("raises", {})).items():
             if isinstance(spec, str):
                 spec = {"when": spec}
-            self.raises[exc] = {"when": spec["when"], "state": spec.get("state", "unchanged")}
+            self.raises[exc] = {"when": spec["when"], "state": spec.get("state", "unchanged"),
+                                "must": bool(spec.get("must", True))}
         self.modifies = list(kw.pop("modifies", []))       # e.g. ["self._bloom", "self._els_added"]
         self.loops = dict(kw.pop("loops", {}))             # ordinal -> {"invariant": [...]}
         for k, v in list(self.loops.items()):
@@ -50,7 +51,9 @@ class Contract:
         self.pure = bool(kw.pop("pure", False))
         self.note = kw.pop("note", "")
         self.result_fields_unconstrained = kw.pop("result_fields_unconstrained", False)
-        self.bind = dict(kw.pop("bind", {}))               # lemma text: local name -> contract key
+        self.bind = dict(kw.pop("bind", {}))
+        # extra runs with some parameter types replaced, e.g. [{"second": "obj:BloomFilterOnDisk"}, {"second": "foreign"}]
+        self.variants = list(kw.pop("variants", []))               # lemma text: local name -> contract key
         if kw:
             raise TypeError(f"unknown contract keys for {key}: {sorted(kw)}")
 
